@@ -167,6 +167,19 @@ fn enumerate(tier: Tier, idx: u32, of: u32, cx: &mut Cx) -> CaseResult {
         crate::engine::force_remove(&sub);
         cx.add_evals(1);
         cx.inner_nontrivial += 1;
+        // ... of more entries than one index hunk takes with the default options
+        crate::engine::heartbeat();
+        let (opts, tree) = crate::probes::over_default_hunk_tree();
+        let sub = cx.dir("over-default-hunk");
+        std::fs::create_dir_all(&sub).unwrap();
+        let mut cx2 = crate::engine::sub_cx(cx, sub.clone());
+        run(&Case::Walk { opts, tree }, &mut cx2).map_err(|mut f| {
+            f.signature = format!("{}/probe-over-default-hunk", f.signature);
+            f
+        })?;
+        crate::engine::force_remove(&sub);
+        cx.add_evals(1);
+        cx.inner_nontrivial += 1;
         // ... and of one very large file between small ones
         crate::engine::heartbeat();
         let (opts, tree) = crate::probes::huge_file_tree();
@@ -418,7 +431,8 @@ fn run(case: &Case, cx: &mut Cx) -> CaseResult {
             ensure!(listing == model, "C11/listing-set", "listing {listing:?} != model {model:?}");
 
             let levels = tree.0.keys().map(|k| depth(k)).max().unwrap_or(0);
-            let extending = model.iter().any(|a| {
+            // (a quadratic scan that only feeds the evidence labels: skipped for the largest probe)
+            let extending = model.len() <= 20_000 && model.iter().any(|a| {
                 model.iter().any(|b| {
                     a != b && tree::parent_of(a) == tree::parent_of(b) && tree::base_name(b).starts_with(tree::base_name(a))
                 })
